@@ -25,7 +25,7 @@ TECHNIQUE = ("runtime monitoring of generated programs: every generated script i
              "with the intended batch ids")
 RULE = ("schedulers {sge,pbs,slurm} x mode {array,single} x crop state {nothing grown, some grown, all but one grown} x batch_ids {None, "
         "explicit lists of length 1..B, tuple, int} x resource spellings (hours/minutes/seconds, time= str/number, gigabytes/mem, "
-        "num_procs+num_workers, extra header flags, conda_env, launcher, setup, debugging) on crops of 1-8 batches named by an absolute or a relative parent directory; array scripts with workers inside a batch; plus the "
+        "num_procs+num_workers, extra header flags, conda_env, launcher, setup code of one or several lines, debugging) on crops of 1-8 batches named by an absolute or a relative parent directory; array scripts with workers inside a batch; plus the "
         "xyzpy-grow command line; one generated script with all its executions is one case; distinct by option vector; "
         "non-trivial when >= 2 tasks are intended")
 ASSUMPTIONS = [
